@@ -7,3 +7,31 @@ mod tasks;
 pub use event::{Event, ProcessorError, ProcessorStatus};
 pub(crate) use pipeline::Pipeline;
 pub(crate) use tasks::TaskTracker;
+
+/// Verification exports, compiled only with `--cfg p2panda_p2panda_verif` (off by default).
+///
+/// Gives a deterministic simulator access to the crate-internal event processing pipeline. Not
+/// part of the public API.
+#[cfg(p2panda_p2panda_verif)]
+#[doc(hidden)]
+pub mod verif {
+    use p2panda_core::{Operation, PruneFlag};
+
+    pub use super::event::Event;
+    pub use super::pipeline::Pipeline;
+    pub use super::tasks::{Task, TaskTracker};
+
+    /// Public wrapper around the crate-internal `Event::new`.
+    pub fn new_event<L, E, TP>(
+        operation: Operation<E>,
+        log_id: L,
+        topic: TP,
+        prune_flag: PruneFlag,
+    ) -> Event<L, E, TP>
+    where
+        L: p2panda_core::LogId,
+        TP: Clone,
+    {
+        Event::new(operation, log_id, topic, prune_flag)
+    }
+}
